@@ -1,0 +1,21 @@
+//! Hooks for property C35.
+//!
+//! Thin public wrapper around the `pub(crate)` `TokenConfigExt::update` (the only writer of a token
+//! config's name), so that the harness can drive name UPDATES on an existing record. No logic lives here.
+
+use anchor_lang::prelude::*;
+use gmsol_utils::token_config::{TokenConfig, UpdateTokenConfigParams};
+
+use crate::states::token_config::TokenConfigExt;
+
+pub fn token_config_update(
+    config: &mut TokenConfig,
+    name: &str,
+    synthetic: bool,
+    token_decimals: u8,
+    builder: UpdateTokenConfigParams,
+    enable: bool,
+    init: bool,
+) -> Result<()> {
+    config.update(name, synthetic, token_decimals, builder, enable, init)
+}
